@@ -7,6 +7,7 @@
   cache they pass `string(key)`, i.e. `k` itself.
 -/
 import SF.Proofs.Symbols
+import SF.Proofs.UnfGenericTop
 namespace SF.Props.C20
 open SF SF.Symbols
 
@@ -101,3 +102,48 @@ example :
 example : run (init 0) [[7], [7], [8]] = .ok ({}, [[7], [7], [8]]) := by decide
 
 end SF.Props.C20
+
+/-! ## the cache inside the Unfolder (mirror SF/Gotype/Unfold.lean; proofs SF/Proofs/UnfGen*.lean) -/
+
+namespace SF.PropsUnf.C20
+open SF SF.Unf
+
+/-- C20 at the level of the Unfolder: unfolding ANY well-formed object into a
+`map[string]interface{}` target (nil or already holding members) yields the SAME map whatever
+key cache the Unfolder carries — disabled, or enabled with ANY capacity and ANY contents left
+by earlier documents (hits, misses, evictions) — with keys delivered by value or by reference:
+two idle Unfolders that differ ONLY in their key cache end with equal targets -/
+theorem cache_does_not_change_unfolded_map (f : Nat) (tbl : TypeTable) (v0 : GoVal) (et : GoType)
+    (olds : List (Bytes × GoVal)) (l : Int) (bt : Nat) (ms : List (Bool × Bytes × UTree)) (c : Ctx)
+    (kc₁ kc₂ : Symbols.Cache)
+    (hv0 : v0 = .mapNil et ∧ olds = [] ∨ v0 = .map et olds)
+    (hwf : (UTree.obj l bt ms).wf = true) (hidle : c.unfolder.stack = [])
+    (h1 : Symbols.Inv kc₁) (h2 : Symbols.Inv kc₂) :
+    ∃ a₀ a₁ b₀ b₁,
+      setTarget tbl (.map .ifc) v0 { c with keyCache := kc₁ } = .ok a₀ ∧
+      run (f + 1) (UTree.obj l bt ms).events a₀ = .ok () a₁ ∧
+      setTarget tbl (.map .ifc) v0 { c with keyCache := kc₂ } = .ok b₀ ∧
+      run (f + 1) (UTree.obj l bt ms).events b₀ = .ok () b₁ ∧
+      a₁.target = b₁.target := by
+  obtain ⟨a0, ka, ha0, _, hra, _⟩ :=
+    unfold_into_map f tbl v0 et olds l bt ms { c with keyCache := kc₁ } hv0 hwf hidle h1
+  obtain ⟨b0, kb, hb0, _, hrb, _⟩ :=
+    unfold_into_map f tbl v0 et olds l bt ms { c with keyCache := kc₂ } hv0 hwf hidle h2
+  exact ⟨a0, _, b0, _, ha0, hra, hb0, hrb, rfl⟩
+
+/-- … and likewise for an `interface{}` target (nested generic maps at any depth) -/
+theorem cache_does_not_change_unfolded_value (f : Nat) (tbl : TypeTable) (v0 : GoVal) (t : UTree) (c : Ctx)
+    (kc₁ kc₂ : Symbols.Cache) (hwf : t.wf = true) (hidle : c.unfolder.stack = [])
+    (h1 : Symbols.Inv kc₁) (h2 : Symbols.Inv kc₂) :
+    ∃ a₀ a₁ b₀ b₁,
+      setTarget tbl .ifc v0 { c with keyCache := kc₁ } = .ok a₀ ∧ run (f + 1) t.events a₀ = .ok () a₁ ∧
+      setTarget tbl .ifc v0 { c with keyCache := kc₂ } = .ok b₀ ∧ run (f + 1) t.events b₀ = .ok () b₁ ∧
+      a₁.target = b₁.target := by
+  obtain ⟨a0, ka, ha0, _, hra⟩ := unfold_into_interface f tbl v0 t { c with keyCache := kc₁ } hwf hidle h1
+  obtain ⟨b0, kb, hb0, _, hrb⟩ := unfold_into_interface f tbl v0 t { c with keyCache := kc₂ } hwf hidle h2
+  exact ⟨a0, _, b0, _, ha0, hra, hb0, hrb, rfl⟩
+
+/-- the hypothesis is met by every cache `EnableKeyCache(n)` builds, for every n (also n ≤ 0) -/
+theorem enabled_cache_inv (n : Int) : Symbols.Inv (Symbols.init n) := Symbols.inv_init n
+
+end SF.PropsUnf.C20
